@@ -111,6 +111,9 @@ def check(fb, ctx):
         "fact's origin is the matched origin plus the rule's block; joins union origins."
     )
     shared_rules(fb, ctx, "C05")
+    # strings compare by index: a derivation that computes a string must find the index the same string already has
+    from props import c06
+    c06.symbol_lookup_rules(fb, ctx, "INTERN")
     ctx.not_decided = ["that the computed set equals the least fixpoint for every program (semantic)", "completeness of the join iterator beyond the unification rule", "insertion-order independence"]
     ctx.trusted = ["rustc pattern resolution", "std HashSet/HashMap semantics"]
 
